@@ -238,10 +238,7 @@ func reflectModels() map[string]modelFn {
 		et := s.T.Underlying().(*types.Slice).Elem()
 		xs, _ := a[1].(Slice)
 		cur, _ := s.val().(Slice)
-		vals := make([]Val, 0, cur.Len+xs.Len)
-		for _, e := range cur.elems() {
-			vals = append(vals, copyVal(e))
-		}
+		var add []Val
 		for _, x := range xs.elems() {
 			xv := x.(RV)
 			if xv.T == nil {
@@ -250,9 +247,32 @@ func reflectModels() map[string]modelFn {
 			if !ex.assignable(xv.T, et) {
 				ex.rpanic("reflect.Set: value of type %s is not assignable to type %s", typeString(xv.T), typeString(et))
 			}
-			vals = append(vals, copyVal(xv.toType(et)))
+			add = append(add, copyVal(xv.toType(et)))
 		}
-		return RV{T: s.T, V: newSlice(vals)}
+		// as the built-in append: spare capacity of the operand's backing array is
+		// written in place (the result aliases the operand), otherwise a new array
+		return RV{T: s.T, V: ex.appendVals(cur, add, et)}
+	}
+	m["reflect.AppendSlice"] = func(ex *Exec, a []Val) Val {
+		s, t := a[0].(RV), a[1].(RV)
+		if s.kind() != kSlice {
+			ex.rpanic("reflect: call of reflect.AppendSlice on %s Value", kindNames[s.kind()])
+		}
+		if t.kind() != kSlice {
+			ex.rpanic("reflect: call of reflect.AppendSlice on %s Value", kindNames[t.kind()])
+		}
+		et := s.T.Underlying().(*types.Slice).Elem()
+		if !types.Identical(et, t.T.Underlying().(*types.Slice).Elem()) {
+			ex.rpanic("reflect.AppendSlice: %s != %s", typeString(et), typeString(t.T.Underlying().(*types.Slice).Elem()))
+		}
+		cur, _ := s.val().(Slice)
+		src, _ := t.val().(Slice)
+		var add []Val
+		for i := 0; i < src.Len; i++ {
+			ex.logCell(src.at(i), false)
+			add = append(add, copyVal(*src.at(i)))
+		}
+		return RV{T: s.T, V: ex.appendVals(cur, add, et)}
 	}
 	m["(reflect.Kind).String"] = func(ex *Exec, a []Val) Val {
 		k := ex.concInt(Int{C: a[0].(Int).C, T: a[0].(Int).T, W: 64, S: true}, "Kind")
